@@ -203,6 +203,9 @@ Definition step (s : state) (l : label) : option state :=
 Definition suffix_of (w : who) : Z := match w with WGlobal => 0 | WLocal d => Z.of_nat d + 1 end.
 Definition differentiate (raw : Z) (b : Z) (sfx : Z) : Z := Z.shiftl raw b + sfx.
 
+(* client/client.go addLogical: the client derives the values of a batch from the last one *)
+Definition add_logical (logical count b : Z) : Z := logical + Z.shiftl count b.
+
 (* CalSuffixBits: ceil(log2(maxSuffix + 1)) *)
 Definition cal_suffix_bits (max_suffix : Z) : Z := Z.log2_up (max_suffix + 1).
 
